@@ -54,6 +54,8 @@ func c07Op(r *rng, sym byte) hop {
 		return hop{op: 'A', doc: poolDoc(r, 'B')}
 	case 'd': // same metric count and types as A, one field renamed (schema-aware kinds only)
 		return hop{op: 'A', doc: poolDoc(r, 'D')}
+	case 'g': // same keys and metric count as A, the type of the SECOND metric differs: refused after the first metric was looked at
+		return hop{op: 'A', doc: poolDoc(r, 'G')}
 	case 'u':
 		return hop{op: 'A', raw: []byte{0x03, 0x00, 0x00}}
 	case 'r':
@@ -107,9 +109,9 @@ func init() {
 		// 1. exhaustive short histories over 8 operation symbols
 		for _, kind := range compressingKinds {
 			for _, n := range ns {
-				alphabet := "aburxfmi"
+				alphabet := "abgurxfmi"
 				if kind == "dyn" || kind == "sdyn" {
-					alphabet = "abdurxfmi" // a renamed field must start a new chunk
+					alphabet = "abdgurxfmi" // a renamed field must start a new chunk
 				}
 				enumerate(alphabet, maxLen, func(h string) {
 					if thorough && len(h) == 5 && !r.chance(1, 6) {
@@ -117,7 +119,7 @@ func init() {
 					}
 					c := hcase{kind: kind, n: n, probe: true}
 					if len(h)%3 == 0 {
-						c.wrapper = wrappers[r.intn(len(wrappers))]
+						c.wrapper = pickWrapper(r, kind)
 					}
 					for i := 0; i < len(h); i++ {
 						c.ops = append(c.ops, c07Op(r, h[i]))
@@ -133,14 +135,26 @@ func init() {
 			nrand = 6000
 		}
 		for k := 0; k < nrand; k++ {
-			c := hcase{kind: compressingKinds[r.intn(5)], n: 1 + r.intn(5), probe: true, wrapper: wrappers[r.intn(len(wrappers))]}
+			c := hcase{kind: compressingKinds[r.intn(5)], n: 1 + r.intn(5), probe: true}
+			c.wrapper = pickWrapper(r, c.kind)
 			l := 5 + r.intn(40)
 			for i := 0; i < l; i++ {
-				sym := "aaaaaaabbburxfmi"[r.intn(16)]
+				sym := "aaaaaaabbburxfmig"[r.intn(17)]
 				if (c.kind == "dyn" || c.kind == "sdyn") && r.chance(1, 6) {
 					sym = 'd'
 				}
 				c.ops = append(c.ops, c07Op(r, sym))
+			}
+			// one history in three meets a writer that refuses some of its calls outright (nothing consumed): what
+			// was accepted must then still be in the collector, and a later flush delivers it exactly once
+			if isStreamingKind(c.kind) && r.chance(1, 3) {
+				for j := 0; j < 8; j++ {
+					if r.chance(1, 3) {
+						c.faults = append(c.faults, fault{kind: fError})
+					} else {
+						c.faults = append(c.faults, fault{kind: fNone})
+					}
+				}
 			}
 			id++
 			runHistory(ho, id, c)
@@ -165,6 +179,9 @@ func init() {
 		}
 		mk := func(kind string, n int, seq string) hcase {
 			c := hcase{kind: kind, n: n, probe: true}
+			if kind == "sdyn" && r.chance(1, 3) {
+				c.wrapper = "wcoll" // the io.WriteCloser entry point
+			}
 			for i := 0; i < len(seq); i++ {
 				c.ops = append(c.ops, hop{op: 'A', doc: poolDoc(r, seq[i])})
 			}
